@@ -5,17 +5,59 @@ SC_ASSUME = [
     "hook completeness: code between two hooks is atomic for the explorer (audited by the TSan pass, not proved)",
     "bounded: threads, operations per thread, tree shapes and preemption bound as listed in coverage",
 ]
+E1_RULE = ("one case = one complete thread schedule of a (shape, program) scenario executed on the real code; "
+           "non-trivial = at least one context switch away from a thread that is inside an API call; "
+           "states = schedule-tree nodes not shared with the parent schedule, transitions = scheduling decisions")
 
 PROPERTIES = {
     "C01": {
         "title": "point operations are linearizable",
-        "jobs": [
-            {"bin": "h_tree", "args": ["lin", "--oracle", "lin"], "shards": 16},
-        ],
-        "deadline": {"quick": 120, "thorough": 1500},
-        "rule": "one case = one complete thread schedule of a (shape, program) scenario run on the real tree; "
-                "non-trivial = at least one context switch away from a thread that is inside an API call; "
-                "states = schedule-tree nodes not shared with the parent schedule, transitions = scheduling decisions",
+        "jobs": [{"bin": "h_tree", "args": ["lin", "--oracle", "lin"], "shards": 16}],
+        "accept": r"lin:|crash",
+        "deadline": {"quick": 150, "thorough": 1500},
+        "rule": E1_RULE, "assumptions": SC_ASSUME,
+    },
+    "C04": {
+        "title": "concurrent scans are per-key consistent",
+        "jobs": [{"bin": "h_tree", "args": ["scanc", "--oracle", "scan+lin"], "shards": 16}],
+        "accept": r"scan:|lin:|crash",
+        "deadline": {"quick": 150, "thorough": 1500},
+        "rule": E1_RULE, "assumptions": SC_ASSUME,
+    },
+    "C06": {
+        "title": "concurrent insert is seen or invalidates the node-version set",
+        "jobs": [{"bin": "h_tree", "args": ["phantom", "--oracle", "phantom"], "shards": 16}],
+        "accept": r"phantom:|crash",
+        "deadline": {"quick": 150, "thorough": 1500},
+        "rule": E1_RULE, "assumptions": SC_ASSUME,
+    },
+    "C07": {
+        "title": "memory stays valid until the session leaves",
+        "jobs": [{"bin": "h_proto_s3", "args": ["epoch"], "subshards": {"quick": 5, "thorough": 16}}],
+        "accept": r"epoch:|crash",
+        "deadline": {"quick": 200, "thorough": 2400},
+        "rule": E1_RULE + "; coarse mode: tree operations are atomic steps, every access of the session table, the epoch, "
+                "the gc epoch, the retire queues and the stop flags is a choice point; real epoch_thread()/gc_thread() bodies "
+                "with wake-up horizons 3 and 2; a deviation is a preemption or not continuing after a yield",
+        "assumptions": SC_ASSUME + ["coarse mode treats get/put/remove/scan as atomic steps"],
+    },
+    "C09": {
+        "title": "operations complete, no lock left held",
+        "jobs": [{"bin": "h_tree", "args": ["locks", "--oracle", "lock"], "shards": 16},
+                 {"bin": "h_tree", "args": ["struct", "--oracle", "lock"], "shards": 4}],
+        "accept": r"lock:|deadlock|livelock",
+        "deadline": {"quick": 240, "thorough": 1500},
+        "rule": E1_RULE + "; a deadlock is reported when no thread is enabled and 8 forced retry rounds of every stuck thread "
+                "complete no write; a livelock when one execution exceeds the point horizon",
+        "assumptions": SC_ASSUME + ["fairness: a spinning thread yields; schedules that run a spinner forever are excluded"],
+    },
+    "C14": {
+        "title": "sessions are exclusive slots",
+        "jobs": [{"bin": "h_proto_s1", "args": ["session"]}, {"bin": "h_proto_s2", "args": ["session"]},
+                 {"bin": "h_proto_s3", "args": ["session"]}],
+        "accept": r"session:|crash|deadlock|livelock",
+        "deadline": {"quick": 150, "thorough": 1200},
+        "rule": E1_RULE + "; stateful pruning on (per-thread observation hash, session table, epoch); capacities 1, 2, 3",
         "assumptions": SC_ASSUME,
     },
 }
